@@ -114,6 +114,33 @@ func vfC06ExpBytes(n uint64, seed byte) []byte {
 
 func init() { encoding.RegisterCompressor(vfC06Expander{}) }
 
+// vfC06Counting wraps a registered compressor (gzip) so that the bytes the code
+// under test pulls out of its Decompress reader are counted as well.
+type vfC06Counting struct{ encoding.Compressor }
+
+type vfC06CountingReader struct{ r io.Reader }
+
+func (c vfC06CountingReader) Read(p []byte) (int, error) {
+	n, err := c.r.Read(p)
+	vfC06Pulled.Add(int64(n))
+	return n, err
+}
+
+func (c vfC06CountingReader) Close() error {
+	if cl, ok := c.r.(io.Closer); ok {
+		return cl.Close()
+	}
+	return nil
+}
+
+func (c vfC06Counting) Decompress(r io.Reader) (io.Reader, error) {
+	in, err := c.Compressor.Decompress(r)
+	if err != nil {
+		return nil, err
+	}
+	return vfC06CountingReader{in}, nil
+}
+
 // ---------------------------------------------------------------- stream reader
 
 // vfC06Reader serves data in chunks (sizes cycled from chunks). Semantics follow
@@ -384,6 +411,11 @@ func vfC06Run(_ *testing.T, p vfC06Plan) vk.Result {
 	if p.Limit < 0 || (p.Enc == vfC06ExpanderName && p.Limit > vfC06MaxExpLimit) || (p.Enc == vfC06UnknownName && p.Server) {
 		return vk.Result{Discard: true}
 	}
+	for _, m := range p.Msgs {
+		if m.Len < 0 || (m.Len > 2<<20 && !(m.Comp && p.Enc == vfC06ExpanderName)) {
+			return vk.Result{Discard: true}
+		}
+	}
 	stream := vfC06Stream(p)
 	if len(stream) > 8<<20 {
 		return vk.Result{Discard: true}
@@ -400,6 +432,9 @@ func vfC06Run(_ *testing.T, p vfC06Plan) vk.Result {
 		if dc == nil || dc.Type() != ct {
 			dc = nil
 			comp = encoding.GetCompressor(ct)
+			if comp != nil && ct != vfC06ExpanderName {
+				comp = vfC06Counting{comp}
+			}
 		}
 	} else {
 		dc = nil
@@ -468,9 +503,15 @@ func vfC06Run(_ *testing.T, p vfC06Plan) vk.Result {
 			if status.Code(err) != codes.ResourceExhausted {
 				return vk.Bad("event %d: want RESOURCE_EXHAUSTED (%s), got %v", i, ev.why, err)
 			}
-			cls["exhausted"] = true
+			cls["exhausted:"+ev.why[:8]] = true
 			if ev.expander {
 				cls["expander_over_limit(pulled<=limit+1 checked)"] = true
+			}
+			if pulled > 0 && !ev.expander {
+				cls["gzip_over_limit(pulled<=limit+1 checked)"] = true
+			}
+			if pulled == p.Limit+1 {
+				cls["pulled==limit+1"] = true
 			}
 		case vfC06EvError:
 			if err == nil {
@@ -479,7 +520,7 @@ func vfC06Run(_ *testing.T, p vfC06Plan) vk.Result {
 			if err == io.EOF {
 				return vk.Bad("event %d: want an error (%s), got io.EOF (clean end of stream)", i, ev.why)
 			}
-			cls["error:"+ev.why[:min(len(ev.why), 28)]] = true
+			cls["error:"+ev.why[:min(len(ev.why), 18)]] = true
 			cls["error_code_"+status.Code(err).String()] = true
 		case vfC06EvEnd:
 			if err != rd.endErr {
@@ -511,6 +552,10 @@ func vfC06Run(_ *testing.T, p vfC06Plan) vk.Result {
 			}
 			if m.Corrupt >= 0 {
 				cls["corrupted_payload"] = true
+			}
+			if m.Comp && vfC06Usable(p) && m.Len > p.Limit+1 {
+				cls["zip_bomb"] = true
+				nt = true
 			}
 			if near || lie || oddFlag || (m.Comp && !vfC06Usable(p)) {
 				nt = true
@@ -563,6 +608,9 @@ func vfC06GenSize(rt *rapid.T, limit int64, label string) int64 {
 	case 0:
 		return 0
 	case 1:
+		if limit > 70000 {
+			return rapid.Int64Range(0, 3000).Draw(rt, label)
+		}
 		return max(limit-1, 0)
 	case 2:
 		if limit > 70000 {
@@ -605,30 +653,47 @@ func vfC06Gen(rt *rapid.T) vfC06Plan {
 		p.Limit = vfC06MaxExpLimit
 	}
 	n := rapid.IntRange(1, vk.Pick(4, 8)).Draw(rt, "nmsgs")
+	// anomaly table: rapid favours low indices, "none" comes first
+	anomalies := []string{"none", "none", "none", "none", "none", "none", "none", "none", "bomb", "over", "flag", "lie", "corrupt", "nodecomp"}
 	for i := 0; i < n; i++ {
 		m := vfC06Msg{Flag: -1, Corrupt: -1, Seed: rapid.IntRange(0, 255).Draw(rt, "seed")}
-		m.Comp = rapid.IntRange(0, 2).Draw(rt, "comp") > 0
+		usable := vfC06Usable(p)
+		m.Comp = usable && rapid.IntRange(0, 3).Draw(rt, "comp") > 0
+		m.Zero = rapid.IntRange(0, 3).Draw(rt, "zero") == 3
 		m.Len = vfC06GenSize(rt, p.Limit, "len")
-		m.Zero = rapid.IntRange(0, 3).Draw(rt, "zero") == 0
-		if m.Comp && p.Enc == vfC06ExpanderName && rapid.IntRange(0, 3).Draw(rt, "bomb") == 0 {
-			m.Len = rapid.SampledFrom([]int64{2*p.Limit + 1, 1 << 20, 1 << 32, 1 << 40, p.Limit + 2}).Draw(rt, "bomblen")
+		if m.Comp && p.Enc == "gzip" && p.Limit < 200 {
+			m.Zero = true // otherwise the gzip framing overhead alone exceeds a small limit
 		}
-		if m.Comp && p.Enc == "gzip" && m.Zero && rapid.IntRange(0, 7).Draw(rt, "zbomb") == 0 {
-			m.Len = rapid.SampledFrom([]int64{1 << 16, 1 << 20}).Draw(rt, "zbomblen")
+		an := rapid.SampledFrom(anomalies).Draw(rt, "anomaly")
+		if i == n-1 && rapid.IntRange(0, 2).Draw(rt, "last_anomaly") == 2 {
+			an = rapid.SampledFrom(anomalies[8:]).Draw(rt, "anomaly_last")
 		}
-		if m.Comp && !vfC06Usable(p) && m.Len > p.Limit { // keep "flag without decompressor" reachable
-			m.Len = p.Limit
+		if an != "over" && an != "bomb" && m.Len > p.Limit {
+			m.Len = p.Limit // messages over the limit end the stream: only where intended
 			if m.Len > 70000 {
-				m.Len = 100
+				m.Len = 70000
 			}
 		}
-		if rapid.IntRange(0, 11).Draw(rt, "oddflag") == 0 {
+		switch an {
+		case "over":
+			if p.Limit < 70000 {
+				m.Len = p.Limit + rapid.Int64Range(1, 3).Draw(rt, "over_by")
+			}
+		case "bomb": // decompresses to more than the limit although the wire size is small
+			if usable {
+				m.Comp, m.Zero = true, true
+				if p.Enc == vfC06ExpanderName {
+					m.Len = rapid.SampledFrom([]int64{p.Limit + 1, p.Limit + 2, 2*p.Limit + 1, 1 << 20, 1 << 32, 1 << 40}).Draw(rt, "bomblen")
+				} else if p.Limit < 70000 {
+					m.Len = rapid.SampledFrom([]int64{p.Limit + 1, p.Limit + 2, 2*p.Limit + 1, 10*p.Limit + 7, 1 << 16, 1 << 20}).Draw(rt, "bomblen")
+				}
+			}
+		case "flag":
 			m.Flag = rapid.SampledFrom([]int{0, 1, 2, 3, 0x80, 0x81, 0xfe, 0xff}).Draw(rt, "flag")
 			if rapid.Bool().Draw(rt, "anyflag") {
 				m.Flag = rapid.IntRange(0, 255).Draw(rt, "flagbyte")
 			}
-		}
-		if rapid.IntRange(0, 11).Draw(rt, "lie") == 0 {
+		case "lie":
 			switch rapid.IntRange(0, 4).Draw(rt, "lie_kind") {
 			case 0:
 				m.Lie = -1
@@ -641,24 +706,27 @@ func vfC06Gen(rt *rapid.T) vfC06Plan {
 			default:
 				m.LieMax = true
 			}
-		}
-		if rapid.IntRange(0, 19).Draw(rt, "corrupt") == 0 {
+		case "corrupt":
 			m.Corrupt = rapid.IntRange(0, 1<<16).Draw(rt, "corrupt_pos")
+		case "nodecomp": // compressed flag although the receiver has no usable decompressor
+			if !usable {
+				m.Comp = true
+			}
 		}
 		p.Msgs = append(p.Msgs, m)
 	}
 	p.Chunks = rapid.SliceOfN(rapid.SampledFrom([]int{1, 2, 3, 4, 5, 7, 16, 100, 4096, 16384, 1 << 20}), 1, 6).Draw(rt, "chunks")
-	if rapid.IntRange(0, 7).Draw(rt, "trunc") == 0 {
+	if rapid.IntRange(0, 7).Draw(rt, "trunc") == 7 {
 		p.Trunc = rapid.IntRange(0, 1<<20).Draw(rt, "trunc_at")
 	}
-	p.EndStatus = rapid.IntRange(0, 5).Draw(rt, "endstatus") == 0
+	p.EndStatus = rapid.IntRange(0, 5).Draw(rt, "endstatus") == 5
 	return p
 }
 
 func TestVerifC06Framing(t *testing.T) {
 	vk.Check(t, vk.Unit[vfC06Plan]{
 		ID: "C06", Name: "framing",
-		Rule: "1..4 (thorough 8) messages; sizes 0, limit-1, limit, limit+1, random up to 2*limit+2 (<= 70000; gzip zero-bombs up to 2^20, expander 'bombs' up to 2^40); encodings '', identity, gzip (registered, or legacy NewGZIPDecompressor in 1/3), a harness expander compressor that counts pulled bytes, an unregistered name; limits 0..64, ..5000, ..70000, MaxInt32(+1), MaxUint32, MaxInt64(-1); 1/12 explicit flag byte 0..255, 1/12 lying length prefix (+-1, +-10, +-70000, 2^32-1), 1/20 corrupted payload byte, 1/8 truncated stream, chunkings from {1..7,16,100,4096,16384,2^20}. non-trivial = a message size within +-1 of the limit, or a lying prefix / explicit flag / flag without usable decompressor / truncation",
+		Rule: "1..4 (thorough 8) messages; sizes 0, limit-1, limit, limit+1, random up to 2*limit+2 (<= 70000; gzip zero-bombs up to 2^20, expander 'bombs' up to 2^40); encodings '', identity, gzip (registered, or legacy NewGZIPDecompressor in 1/3), a harness expander compressor that counts pulled bytes, an unregistered name; limits 0..64, ..5000, ..70000, MaxInt32(+1), MaxUint32, MaxInt64(-1); per message an anomaly from {none x8, zip bomb, over limit, explicit flag byte 0..255, lying length prefix (+-1, +-10, +-70000, 2^32-1), corrupted payload byte, flag 1 without decompressor} (the last message gets one in 1/3), 1/8 truncated stream, chunkings from {1..7,16,100,4096,16384,2^20}. non-trivial = a message size within +-1 of the limit, or a zip bomb / lying prefix / explicit flag / flag without usable decompressor / truncation",
 		Gen:  vfC06Gen, Run: vfC06Run,
 	})
 }
